@@ -169,7 +169,7 @@ def children(t):
         return (("named", ["Ok", "Err"]), [(None, t["t"]), (None, t["e"])])
     if k == "bound":
         return (("named", ["Included", "Excluded"]), [(None, t["t"]), (None, t["t"])])
-    if k == "range":
+    if k in ("range", "rangeincl"):
         return (("named", ["start", "end"]), [(None, t["t"]), (None, t["t"])])
     if k == "rangefrom":
         return (("named", ["start"]), [(None, t["t"])])
@@ -262,6 +262,8 @@ def rust_type(t):
         return "Bound<%s>" % rust_type(t["t"])
     if k == "range":
         return "Range<%s>" % rust_type(t["t"])
+    if k == "rangeincl":
+        return "RangeInclusive<%s>" % rust_type(t["t"])
     if k == "rangefrom":
         return "RangeFrom<%s>" % rust_type(t["t"])
     if k == "rangeto":
@@ -412,7 +414,7 @@ def value(rng, t):
     if k == "bound":
         i = rng.choice([0, 1, None])
         return ("sum", i, value(rng, t["t"]) if i is not None else None)
-    if k == "range":
+    if k in ("range", "rangeincl"):
         return ("prod", [value(rng, t["t"]), value(rng, t["t"])], [])
     if k in ("rangefrom", "rangeto"):
         return ("prod", [value(rng, t["t"])], [])
@@ -491,6 +493,8 @@ def rust_build(t, val):
         return ("Bound::Included(%s)" if val[1] == 0 else "Bound::Excluded(%s)") % rust_build(t["t"], val[2])
     if k == "range":
         return "(%s)..(%s)" % (rust_build(t["t"], val[1][0]), rust_build(t["t"], val[1][1]))
+    if k == "rangeincl":
+        return "(%s)..=(%s)" % (rust_build(t["t"], val[1][0]), rust_build(t["t"], val[1][1]))
     if k == "rangefrom":
         return "(%s).." % rust_build(t["t"], val[1][0])
     if k == "rangeto":
@@ -542,7 +546,7 @@ def coq_lookup(lk):
     return "(%s %d%%N)" % ("Numbered" if lk[0] == "numbered" else "Homog", lk[1])
 
 
-HK = {"tuple": "HTuple", "result": "HResult", "bound": "HBound", "range": "HRange", "rangefrom": "HRangeFrom", "rangeto": "HRangeTo"}
+HK = {"tuple": "HTuple", "result": "HResult", "bound": "HBound", "range": "HRange", "rangeincl": "HRangeIncl", "rangefrom": "HRangeFrom", "rangeto": "HRangeTo"}
 
 
 def coq_node(t):
